@@ -31,6 +31,8 @@ type actor struct {
 
 	loc     string // path in the parent where the view's root node is linked now
 	located bool   // false: the root node is not reachable from the parent's root
+
+	vol string // Windows-typed systems: what the volume names mean inside the view (volumeClass)
 }
 
 func (a *actor) isView() bool { return a.kind != "parent" }
@@ -46,8 +48,10 @@ func (a *actor) attached() bool { return !a.isView() || (a.located && a.loc == a
 //	users@/    V1 acts as u1 (umask 027), V2 as u2 (umask 077), set through the views during setup
 //	admin@/p/q views created while the parent's cwd is "/p/q" (inherited by value), parent then back to "/"
 //	core-...   the same with the reduced "core" alphabet, explored one level deeper
+//	Windows:...  the same on Windows-typed file systems (ostype.go); the parent holds a second volume D:
 type sys struct {
 	variant string
+	win     bool // the file systems emulate Windows
 	tier    string
 	specs   []actorSpec
 	ops     []op
@@ -63,14 +67,14 @@ type sys struct {
 }
 
 func newSys(variant, tier string) *sys {
-	s := &sys{variant: variant, tier: tier}
-	s.specs = actorSpecs(tier, isCore(variant))
+	s := &sys{variant: variant, tier: tier, win: isWin(variant)}
+	s.specs = actorSpecs(tier, isCore(variant), s.win)
 	s.ops = buildOps(s.specs)
 
 	return s
 }
 
-func isCore(variant string) bool { return strings.HasPrefix(variant, "core-") }
+func isCore(variant string) bool { return strings.HasPrefix(baseVariant(variant), "core-") }
 
 func (s *sys) NumOps() int { return len(s.ops) }
 func (s *sys) Close()      {}
@@ -85,7 +89,9 @@ func (s *sys) OpString(i int) string {
 	return sp.name + "." + s.ops[i].c.String()
 }
 
-func newParent() (*memfs.MemFS, map[string]avfs.UserReader, error) {
+func newParent(win bool) (*memfs.MemFS, map[string]avfs.UserReader, error) {
+	sp := func(p string) string { return spell(win, p) }
+
 	idm := memidm.New()
 
 	if _, err := idm.AddGroup("grp"); err != nil {
@@ -103,18 +109,37 @@ func newParent() (*memfs.MemFS, map[string]avfs.UserReader, error) {
 		users[n] = u
 	}
 
-	v := memfs.NewWithOptions(&memfs.Options{Idm: idm, SystemDirs: []avfs.DirInfo{{Path: "/tmp", Perm: 0o777}}})
+	opts := &memfs.Options{Idm: idm, SystemDirs: []avfs.DirInfo{{Path: sp("/tmp"), Perm: 0o777}}}
+	if win {
+		opts.OSType = avfs.OsWindows
+	}
+
+	v := memfs.NewWithOptions(opts)
+
+	if win && v.OSType() != avfs.OsWindows {
+		return nil, nil, fmt.Errorf("constructor produced OS type %v: the driver must be built with the tag avfs_setostype (see the TAGS case of ./check)", v.OSType())
+	}
 
 	steps := []func() error{
 		func() error { return v.SetUMask(0) },
-		func() error { return v.Chdir("/") },
-		func() error { return v.MkdirAll("/p/q", 0o777) },
-		func() error { return v.WriteFile("/p/q/f", []byte("ff"), 0o666) },
-		func() error { return v.WriteFile("/p/g", []byte("gg"), 0o666) },
-		func() error { return v.MkdirAll("/o", 0o777) },
-		func() error { return v.WriteFile("/o/h", []byte("hh"), 0o666) },
-		func() error { return v.SetUMask(0o022) },
+		func() error { return v.Chdir(sp("/")) },
+		func() error { return v.MkdirAll(sp("/p/q"), 0o777) },
+		func() error { return v.WriteFile(sp("/p/q/f"), []byte("ff"), 0o666) },
+		func() error { return v.WriteFile(sp("/p/g"), []byte("gg"), 0o666) },
+		func() error { return v.MkdirAll(sp("/o"), 0o777) },
+		func() error { return v.WriteFile(sp("/o/h"), []byte("hh"), 0o666) },
 	}
+
+	if win {
+		// a second volume with a directory and a file
+		steps = append(steps,
+			func() error { return v.VolumeAdd(vol2) },
+			func() error { return v.Mkdir(vol2+`\v`, 0o777) },
+			func() error { return v.WriteFile(vol2+`\v\w`, []byte("ww"), 0o666) },
+		)
+	}
+
+	steps = append(steps, func() error { return v.SetUMask(0o022) })
 
 	for i, f := range steps {
 		if err := f(); err != nil {
@@ -137,11 +162,11 @@ func (s *sys) Reset() (err error) {
 func (s *sys) reset() error {
 	var err error
 
-	if s.P, s.users, err = newParent(); err != nil {
+	if s.P, s.users, err = newParent(s.win); err != nil {
 		return err
 	}
 
-	if s.T, s.tusers, err = newParent(); err != nil {
+	if s.T, s.tusers, err = newParent(s.win); err != nil {
 		return err
 	}
 
@@ -155,20 +180,22 @@ func (s *sys) reset() error {
 		return fmt.Errorf("administrator is not called root")
 	}
 
-	vs := strings.SplitN(strings.TrimPrefix(s.variant, "core-"), "@", 2)
+	vs := strings.SplitN(strings.TrimPrefix(baseVariant(s.variant), "core-"), "@", 2)
 	if len(vs) != 2 {
 		return fmt.Errorf("bad system name %q", s.variant)
 	}
 
 	subCwd := vs[1]
 	if subCwd != "/" {
-		if err := s.P.Chdir(subCwd); err != nil {
+		if err := s.P.Chdir(s.osp(subCwd)); err != nil {
 			return err
 		}
 	}
 
 	s.actors = s.actors[:0]
 	byName := map[string]*actor{}
+
+	var nestedErr result // outcome of V1.Sub("/q") when it failed
 
 	for _, sp := range s.specs {
 		a := &actor{actorSpec: sp, user: "root", umask: 0o022, cwd: subCwd, located: true, loc: sp.dir}
@@ -179,16 +206,23 @@ func (s *sys) reset() error {
 			a.cwd = "/"
 			a.chdirDone = true
 		case "V1", "V0":
-			v, err := s.P.Sub(sp.dir)
+			v, err := s.P.Sub(s.osp(sp.dir))
 			if err != nil {
 				return fmt.Errorf("Sub(%q): %v", sp.dir, err)
 			}
 
 			a.fs = v.(*memfs.MemFS)
 		case "V2": // nested: Sub of a view
-			v, err := byName["V1"].fs.Sub("/q")
+			v, err := byName["V1"].fs.Sub(s.osp("/q"))
 			if err != nil {
-				return fmt.Errorf("V1.Sub(/q): %v", err)
+				// V1 does not show the directory the parent calls /p/q: that is the
+				// property itself, not a harness error. The exploration goes on with
+				// a stand-in for V2 made by the parent.
+				nestedErr = errResult(err)
+
+				if v, err = s.P.Sub(s.osp(sp.dir)); err != nil {
+					return fmt.Errorf("V1.Sub(/q): %s, and parent.Sub(%s): %v", nestedErr.Msg, sp.dir, err)
+				}
 			}
 
 			a.fs = v.(*memfs.MemFS)
@@ -199,7 +233,7 @@ func (s *sys) reset() error {
 	}
 
 	if subCwd != "/" {
-		if err := s.P.Chdir("/"); err != nil {
+		if err := s.P.Chdir(s.osp("/")); err != nil {
 			return err
 		}
 	}
@@ -217,25 +251,45 @@ func (s *sys) reset() error {
 			a.user, a.umask = st.user, st.umask
 
 			for _, l := range s.stateMismatches() {
-				s.pending = append(s.pending, bfs.Viol{
-					Sig: map[string]string{
-						"actor": a.kind, "call": "setup:SetUser+SetUMask", "path": "none", "phase": "before-chdir",
-						"kind": "setter-leak", "want": l.want, "got": l.got, "user": "non-admin",
-					},
-					Detail: `{"note":"found during setup of the users@/ variant"}`,
-				})
+				sig := map[string]string{
+					"actor": a.kind, "call": "setup:SetUser+SetUMask", "path": "none", "phase": "before-chdir",
+					"kind": "setter-leak", "want": l.want, "got": l.got, "user": "non-admin",
+				}
+
+				s.sigOS(sig, a)
+
+				s.pending = append(s.pending, bfs.Viol{Sig: sig, Detail: `{"note":"found during setup of the users@/ variant"}`})
 			}
 		}
 	}
 
-	s.lastDump = s.P.VerifDump()
+	s.lastDump = s.dump(s.P)
 
-	if !equalLines(s.lastDump, s.T.VerifDump()) {
+	if !equalLines(s.lastDump, s.dump(s.T)) {
 		return fmt.Errorf("twin does not start with the same tree")
 	}
 
 	for _, a := range s.actors {
+		a.vol = s.volumeClass(a)
+	}
+
+	if nestedErr.Kind != "" {
+		sig := map[string]string{
+			"actor": "view", "call": "setup:Sub", "path": "abs-clean", "phase": "before-chdir",
+			"kind": "outcome", "want": "ok", "got": nestedErr.Kind, "user": "admin", "viewroot": "searchable",
+		}
+
+		s.sigOS(sig, byName["V1"])
+
+		s.pending = append(s.pending, bfs.Viol{
+			Sig:    sig,
+			Detail: fmt.Sprintf(`{"note":"setup: V1 = parent.Sub(/p); V1.Sub(/q) failed (%s) although the parent holds the directory /p/q; the exploration continues with parent.Sub(/p/q) in the place of the nested view"}`, strings.ReplaceAll(nestedErr.Msg, `\`, `\\`)),
+		})
+	}
+
+	for _, a := range s.actors {
 		s.locate(a)
+		s.checkVolumes(a, "setup:Sub", "before-chdir", "admin", "abs-clean", `{"note":"found during setup"}`)
 
 		if !a.attached() {
 			// Sub(dir) did not return a view of dir: that is the property itself
@@ -244,11 +298,15 @@ func (s *sys) reset() error {
 				got = "rooted at " + a.loc
 			}
 
+			sig := map[string]string{
+				"actor": a.kind, "call": "setup:Sub", "path": "abs-clean", "phase": "before-chdir",
+				"kind": "tree", "want": "rooted at " + a.dir, "got": got, "user": "admin", "viewroot": "n/a",
+			}
+
+			s.sigOS(sig, a)
+
 			s.pending = append(s.pending, bfs.Viol{
-				Sig: map[string]string{
-					"actor": a.kind, "call": "setup:Sub", "path": "abs-clean", "phase": "before-chdir",
-					"kind": "tree", "want": "rooted at " + a.dir, "got": got, "user": "admin", "viewroot": "n/a",
-				},
+				Sig:    sig,
 				Detail: `{"note":"the root node of the view returned by Sub is not the directory the parent calls dir (checked with the injected VerifRootIs hook)"}`,
 			})
 		}
@@ -263,7 +321,7 @@ func (s *sys) reset() error {
 // calls p (injected read-only hook VerifRootIs).
 func (s *sys) rootAt(a *actor, p string) (ok bool) {
 	_, _ = fsx.Guard(func() {
-		sub, err := s.P.Sub(p)
+		sub, err := s.P.Sub(s.osp(p))
 		if err != nil {
 			return
 		}
@@ -306,7 +364,7 @@ func (s *sys) key(extra string) string {
 	b.WriteString(strings.Join(s.lastDump, "\n"))
 
 	for _, a := range s.actors {
-		u, m, c := actual(a)
+		u, m, c := s.actual(a)
 		fmt.Fprintf(&b, "\n%s dir=%s user=%s umask=%o cwd=%s chdir=%v loc=%s/%v", a.name, a.dir, u, m, c, a.chdirDone, a.loc, a.located)
 	}
 
@@ -322,7 +380,7 @@ func (s *sys) key(extra string) string {
 	return hex.EncodeToString(h[:16])
 }
 
-func actual(a *actor) (user string, umask uint32, cwd string) {
+func (s *sys) actual(a *actor) (user string, umask uint32, cwd string) {
 	_, _ = fsx.Guard(func() {
 		user = "<nil>"
 		if u := a.fs.User(); u != nil {
@@ -333,7 +391,7 @@ func actual(a *actor) (user string, umask uint32, cwd string) {
 		cwd, _ = a.fs.Getwd()
 	})
 
-	return
+	return user, umask, s.mp("/", cwd)
 }
 
 type mismatch struct {
@@ -346,7 +404,7 @@ func (s *sys) stateMismatches() []mismatch {
 	var out []mismatch
 
 	for _, a := range s.actors {
-		u, m, c := actual(a)
+		u, m, c := s.actual(a)
 
 		if u != a.user {
 			out = append(out, mismatch{a, a.kind + ".user=" + a.user, a.kind + ".user=" + u})
@@ -383,9 +441,9 @@ func (s *sys) mirror(a *actor) {
 	_ = s.T.SetUMask(fs.FileMode(a.umask))
 
 	if a.isView() {
-		_ = s.T.SetCurDir(joinDir(a.base(), path.Clean("/"+a.cwd)))
+		_ = s.T.SetCurDir(s.osp(joinDir(a.base(), path.Clean("/"+a.cwd))))
 	} else {
-		_ = s.T.SetCurDir(a.cwd)
+		_ = s.T.SetCurDir(s.osp(a.cwd))
 	}
 }
 
@@ -398,11 +456,20 @@ func (s *sys) twinCall(a *actor, c fsx.Call) fsx.Call {
 		return c
 	}
 
+	tp := func(p string) string {
+		if otherVolume(p) {
+			// another volume has no counterpart below dir (Windows-typed systems)
+			return unreachable(p)
+		}
+
+		return joinDir(a.base(), viewAbs(a.cwd, p))
+	}
+
 	t := c
-	t.A = joinDir(a.base(), viewAbs(a.cwd, c.A))
+	t.A = tp(c.A)
 
 	if isPairOp[c.Op] {
-		t.B = joinDir(a.base(), viewAbs(a.cwd, c.B))
+		t.B = tp(c.B)
 	}
 
 	return t
@@ -422,23 +489,71 @@ func (s *sys) escapedCall(a *actor, c fsx.Call) (fsx.Call, bool) {
 	return t, !under(t.A, a.base())
 }
 
-func isRelative(c fsx.Call) bool {
+// isRelative: an operand of the call (as it is made) depends on the working
+// directory. On a Windows-typed system that includes a rooted path without
+// volume (`\q\f` is not an absolute path there).
+func (s *sys) isRelative(c fsx.Call) bool {
 	if noPathOps[c.Op] {
 		return false
 	}
 
-	return !isAbs(c.A) || (isPairOp[c.Op] && !isAbs(c.B))
+	return !s.qualified(c.A) || (isPairOp[c.Op] && !s.qualified(c.B))
 }
 
-func (s *sys) classOfCall(a *actor, c fsx.Call) string {
+// classOfCall classifies the operands for signatures (c: the call as made,
+// mc: in the model's spelling).
+func (s *sys) classOfCall(a *actor, c, mc fsx.Call) string {
 	switch {
 	case noPathOps[c.Op]:
 		return "none"
 	case isPairOp[c.Op]:
-		return pathClass(a, c.A) + "," + pathClass(a, c.B)
+		return s.pathClass(a, c.A, mc.A) + "," + s.pathClass(a, c.B, mc.B)
 	}
 
-	return pathClass(a, c.A)
+	return s.pathClass(a, c.A, mc.A)
+}
+
+// pathClass is the class of one operand; the forms a Windows-typed system adds
+// are other-volume and rooted:<class of the path the rooted one stands for>.
+func (s *sys) pathClass(a *actor, osPath, mPath string) string {
+	switch {
+	case otherVolume(mPath):
+		return "other-volume"
+	case s.rooted(osPath):
+		return "rooted:" + pathClass(a, mPath)
+	}
+
+	return pathClass(a, mPath)
+}
+
+// reachedVolume: a read-only view call on a path of another volume answered
+// what the parent answers for that very path.
+func (s *sys) reachedVolume(a *actor, c fsx.Call, rr result) bool {
+	if !readOnly[c.Op] || rr.Kind != "ok" {
+		return false
+	}
+
+	s.mirror(a)
+	er := exec(s.T, c, s.tusers)
+
+	return er.Kind == "ok" && er.Val == rr.Val
+}
+
+// checkVolumes reports a view in which the volume names do not mean "the
+// view's own root, and nothing else" (Windows-typed systems).
+func (s *sys) checkVolumes(a *actor, call, phase, userClass, pclass, det string) {
+	if !s.win || !a.isView() || a.vol == "own" {
+		return
+	}
+
+	sig := map[string]string{
+		"actor": a.kind, "call": call, "path": pclass, "phase": phase, "kind": "volume-table",
+		"want": winVolume + "=own-root," + vol2 + "=unreachable", "got": a.vol, "user": userClass, "viewroot": "n/a",
+	}
+
+	s.sigOS(sig, a)
+
+	s.pending = append(s.pending, bfs.Viol{Sig: sig, Detail: det})
 }
 
 // normalise the results of both sides into the actor's namespace.
@@ -625,7 +740,8 @@ func (s *sys) Step(i int) bfs.StepResult {
 	}
 
 	x := s.actors[o.actor]
-	c := o.c
+	c := o.c            // operands as the call is made (OS spelling)
+	mc := s.mcall(x, c) // operands in the model's spelling
 	before := s.lastDump
 
 	phase := "after-chdir"
@@ -643,12 +759,18 @@ func (s *sys) Step(i int) bfs.StepResult {
 	//            before the view's working directory was set through the view)
 	//   detached the view's root was renamed or removed: the property is silent;
 	//            only no panic / deadlock and "nothing outside changes"
+	//   foreign  (Windows-typed) an operand names another volume: it has no
+	//            counterpart below dir and must not reach anything. The call succeeds
+	//            or fails as the parent's call on a volume that does not exist (which
+	//            error is not compared), the trees stay equal, nothing outside changes
 	mode := "full"
 
 	switch {
 	case phase == "detached":
 		mode = "detached"
-	case x.isView() && phase == "before-chdir" && isRelative(c):
+	case x.isView() && foreignCall(mc):
+		mode = "foreign"
+	case x.isView() && phase == "before-chdir" && s.isRelative(c):
 		mode = "outside"
 	}
 
@@ -657,9 +779,14 @@ func (s *sys) Step(i int) bfs.StepResult {
 		userClass = "non-admin"
 	}
 
-	pclass := s.classOfCall(x, c)
+	pclass := s.classOfCall(x, c, mc)
 	hasTwin := !x.isView() || x.located
-	tc := s.twinCall(x, c)
+	tc := s.twinCall(x, mc) // model spelling
+	tcOS := s.oscall(tc)    // as the twin parent is called
+
+	if !x.isView() {
+		tcOS = c // the parent's own calls are passed verbatim
+	}
 
 	det := detail{
 		Variant: s.variant, Actor: x.name, Phase: phase, User: x.user, UMask: fmt.Sprintf("%03o", x.umask), Cwd: x.cwd,
@@ -686,12 +813,14 @@ func (s *sys) Step(i int) bfs.StepResult {
 
 		sig := map[string]string{
 			"actor": x.kind, "call": c.Op, "path": pclass, "phase": phase, "kind": kind,
-			"want": clip(want), "got": clip(got), "user": userClass, "viewroot": s.viewrootClass(x, c, before),
+			"want": clip(want), "got": clip(got), "user": userClass, "viewroot": s.viewrootClass(x, mc, before),
 		}
 
 		for i := 0; i+1 < len(extra); i += 2 {
 			sig[extra[i]] = extra[i+1]
 		}
+
+		s.sigOS(sig, x)
 
 		viols = append(viols, bfs.Viol{Sig: sig, Detail: d.String()})
 	}
@@ -711,20 +840,20 @@ func (s *sys) Step(i int) bfs.StepResult {
 
 	if hasTwin {
 		s.mirror(x)
-		tr = exec(s.T, tc, s.tusers)
-		det.TwinCall = tc.String()
+		tr = exec(s.T, tcOS, s.tusers)
+		det.TwinCall = tcOS.String()
 		det.Twin = tr.String()
 	}
 
 	det.Real = rr.String()
 
 	if s.trace != nil {
-		s.trace(fmt.Sprintf("%-44s real=%s | twin %s = %s", s.OpString(i), rr, tc.String(), tr))
+		s.trace(fmt.Sprintf("%-44s real=%s | twin %s = %s", s.OpString(i), rr, tcOS.String(), tr))
 	}
 
 	var after, tafter []string
 
-	dk, dmsg := fsx.Guard(func() { after = s.P.VerifDump(); tafter = s.T.VerifDump() })
+	dk, dmsg := fsx.Guard(func() { after = s.dump(s.P); tafter = s.dump(s.T) })
 	if dk != "" {
 		report("panic", "dump", "dump-"+dk, dmsg)
 
@@ -759,7 +888,13 @@ func (s *sys) Step(i int) bfs.StepResult {
 		}
 	}
 
-	nr, nt := s.normReal(x, c, rr), s.normTwin(x, c, tr)
+	// (the twin of a view is called on absolute paths; the parent's twin gets the parent's own operands)
+	tcwd := "/"
+	if !x.isView() {
+		tcwd = x.cwd
+	}
+
+	nr, nt := s.normReal(x, mc, s.mres(x.cwd, c, rr)), s.normTwin(x, mc, s.mres(tcwd, c, tr))
 	poisoned := rr.poisoned() || (hasTwin && tr.poisoned())
 	diverged := !treesEqual
 
@@ -771,10 +906,15 @@ func (s *sys) Step(i int) bfs.StepResult {
 	// root that refuses to be removed, or is emptied and kept, is as defensible
 	// as the parent's removal of the entry. Such calls are judged only on: no
 	// panic / deadlock that the parent does not share, nothing outside dir changed.
-	rootEntry := x.isView() && (c.Op == "Remove" || c.Op == "RemoveAll" || c.Op == "Rename") &&
-		(viewAbs(x.cwd, c.A) == "/" || (c.Op == "Rename" && viewAbs(x.cwd, c.B) == "/"))
+	rootEntry := x.isView() && mode != "foreign" && (c.Op == "Remove" || c.Op == "RemoveAll" || c.Op == "Rename") &&
+		(viewAbs(x.cwd, mc.A) == "/" || (c.Op == "Rename" && viewAbs(x.cwd, mc.B) == "/"))
 	lenient := rootEntry && !rr.poisoned()
 	kindsEqual := nr.Kind == nt.Kind
+
+	if mode == "foreign" {
+		// (a panic or deadlock the parent shares on a volume that does not exist is the parent's defect)
+		kindsEqual = okClass(nr.Kind) == okClass(nt.Kind) && (!rr.poisoned() || nr.Kind == nt.Kind)
+	}
 
 	switch mode {
 	case "full":
@@ -790,7 +930,7 @@ func (s *sys) Step(i int) bfs.StepResult {
 				kind, want = "deadlock", "no-deadlock"
 			}
 
-			if s.reachedOutside(x, c, nr, nt) {
+			if s.reachedOutside(x, mc, nr, nt) {
 				kind = "outside-read"
 			}
 
@@ -801,7 +941,7 @@ func (s *sys) Step(i int) bfs.StepResult {
 			}
 		case nr.Name != nt.Name || nr.Val != nt.Val:
 			kind := "value"
-			if s.reachedOutside(x, c, nr, nt) {
+			if s.reachedOutside(x, mc, nr, nt) {
 				kind = "outside-read"
 			}
 
@@ -811,8 +951,27 @@ func (s *sys) Step(i int) bfs.StepResult {
 				"path carried by the error differs after stripping dir")
 		}
 	case "outside":
-		if s.reachedOutside(x, c, nr, nt) {
+		if s.reachedOutside(x, mc, nr, nt) {
 			report("outside-read", nt.String(), nr.String(), "answer equals what the parent gives for the path OUTSIDE dir")
+		}
+	case "foreign":
+		if !kindsEqual {
+			kind, want, got := "outcome", okClass(nt.Kind), nr.Kind
+
+			switch {
+			case nr.Kind == "PANIC":
+				kind, want, got = "panic", "no-panic", panicClass(rr.Msg)
+			case nr.Kind == "DEADLOCK":
+				kind, want = "deadlock", "no-deadlock"
+			case s.reachedVolume(x, c, rr):
+				kind = "outside-read"
+			}
+
+			report(kind, want, got, "an operand names another volume, which has no counterpart below dir: the call must succeed or fail as the parent's call on a volume that does not exist")
+
+			if !readOnly[c.Op] {
+				diverged = true
+			}
 		}
 	case "detached":
 		if rr.poisoned() && !(hasTwin && tr.Kind == rr.Kind) {
@@ -850,13 +1009,13 @@ func (s *sys) Step(i int) bfs.StepResult {
 			x.umask = c.Perm
 		}
 	case "Chdir":
-		if mode == "full" {
+		if mode == "full" || mode == "foreign" {
 			if twinOK {
-				x.cwd = stripDir(x.base(), s.T.CurDir())
+				x.cwd = stripDir(x.base(), s.mp("/", s.T.CurDir()))
 				x.chdirDone = true
 			}
 		} else if rr.Kind == "ok" {
-			_, _, x.cwd = actual(x)
+			_, _, x.cwd = s.actual(x)
 			x.chdirDone = true
 		}
 	}
@@ -868,7 +1027,7 @@ func (s *sys) Step(i int) bfs.StepResult {
 			report("setter-leak", m.want, m.got, "state of another actor changed", "victim", m.actor.kind)
 
 			diverged = true
-		case mode == "full":
+		case mode == "full" || mode == "foreign":
 			if kindsEqual { // otherwise already reported as outcome
 				report("value", m.want, m.got, "the actor's own User/UMask/Getwd after the call is not what the parent's would be")
 			}
@@ -876,12 +1035,12 @@ func (s *sys) Step(i int) bfs.StepResult {
 			diverged = true
 		}
 		// resynchronise so that the model follows the implementation
-		m.actor.user, m.actor.umask, m.actor.cwd = actual(m.actor)
+		m.actor.user, m.actor.umask, m.actor.cwd = s.actual(m.actor)
 	}
 
 	// ---- tree equality
 	// (when the outcomes already differ the tree difference is its consequence)
-	if mode == "full" && !treesEqual && kindsEqual && !lenient {
+	if (mode == "full" || mode == "foreign") && !treesEqual && kindsEqual && !lenient {
 		report("tree", "equal", treeClass(tafter, after), "same outcome, but the parent tree differs from the twin's after the call")
 	}
 
@@ -912,7 +1071,7 @@ func (s *sys) Step(i int) bfs.StepResult {
 
 	// ---- visibility through the other actors
 	if mode == "full" && changed && treesEqual && !poisoned {
-		s.visibility(x, c, tc, report)
+		s.visibility(x, mc, tc, report)
 	}
 
 	key := s.key("")
@@ -962,7 +1121,7 @@ func (s *sys) reachedOutside(a *actor, c fsx.Call, nr, nt result) bool {
 	}
 
 	s.mirror(a)
-	er := exec(s.T, ec, s.tusers)
+	er := exec(s.T, s.oscall(ec), s.tusers)
 
 	same := func(p, q result) bool { return p.Kind == q.Kind && p.Val == q.Val }
 
@@ -975,7 +1134,7 @@ func (s *sys) visibility(x *actor, c, tc fsx.Call, report func(kind, want, got, 
 	var touched []string
 
 	abs := func(p string) string {
-		if x.isView() {
+		if x.isView() || otherVolume(p) {
 			return p // tc operands are absolute in the parent namespace already
 		}
 
@@ -991,6 +1150,10 @@ func (s *sys) visibility(x *actor, c, tc fsx.Call, report func(kind, want, got, 
 	}
 
 	for _, tp := range touched {
+		if otherVolume(tp) {
+			continue // another volume is below no view
+		}
+
 		for _, y := range s.actors {
 			if y == x || !y.attached() || !under(tp, y.dir) {
 				continue
@@ -1008,8 +1171,8 @@ func (s *sys) visibility(x *actor, c, tc fsx.Call, report func(kind, want, got, 
 
 			s.mirror(y)
 
-			wk, want := observe(s.T, tp, y.isView() && py == "/")
-			gk, got := observe(y.fs, py, y.isView() && py == "/")
+			wk, want := observe(s.T, s.osp(tp), y.isView() && py == "/")
+			gk, got := observe(y.fs, s.osp(py), y.isView() && py == "/")
 
 			if want != got {
 				cw, cg := "Lstat:"+wk, "Lstat:"+gk
@@ -1094,9 +1257,11 @@ func (s *sys) unsearchable(a *actor, dump []string) (rootBad, ancBad, ok bool) {
 		}
 
 		p := pathOf(l)
-		if p == "/" || !under(base, p) {
-			continue // the walk never checks its own starting directory "/"
+		if !under(base, p) {
+			continue
 		}
+
+		// "/" included: a walk searches the directory it starts from like any other
 
 		var mode, uid, gid int
 
@@ -1136,7 +1301,16 @@ func (s *sys) apiDump(v *memfs.MemFS, users map[string]avfs.UserReader) []string
 
 	var out []string
 
-	if k, msg := fsx.Guard(func() { out = fsx.Dump(v, "/", fsx.DumpOpts{}) }); k != "" {
+	roots := []string{"/"}
+	if s.win {
+		roots = []string{s.osp("/"), s.osp(vol2)}
+	}
+
+	if k, msg := fsx.Guard(func() {
+		for _, r := range roots {
+			out = append(out, fsx.Dump(v, r, fsx.DumpOpts{})...)
+		}
+	}); k != "" {
 		out = []string{"!dump " + k + " " + msg}
 	}
 
@@ -1195,16 +1369,19 @@ func (s *sys) stepSub(i int) bfs.StepResult {
 	o := s.ops[i]
 	x := s.actors[o.actor]
 	r := s.actorByName(x.recv)
-	c := o.c
+	c := o.c // the spelling as given to Sub
 	before := s.lastDump
 
 	var viols []bfs.Viol
 
 	viols, s.pending = s.pending, nil
 
-	if r == nil || !r.attached() || (r.isView() && !r.chdirDone && !isAbs(c.A)) {
+	if r == nil || !r.attached() || (r.isView() && !r.chdirDone && !s.qualified(c.A)) {
 		return bfs.StepResult{Key: s.lastKey, Outcome: x.recv + "/Sub/not-judged", Viols: viols}
 	}
+
+	mc := s.mcall(r, c) // in the model's spelling
+	foreign := r.isView() && foreignCall(mc)
 
 	phase := "after-chdir"
 	if !r.chdirDone {
@@ -1216,18 +1393,29 @@ func (s *sys) stepSub(i int) bfs.StepResult {
 		userClass = "non-admin"
 	}
 
-	pclass := pathClass(r, c.A)
-	tc := s.twinCall(r, c)
-	tdir := joinDir(r.base(), viewAbs(r.cwd, c.A)) // where the parent sees the new view's root
+	pclass := s.pathClass(r, c.A, mc.A)
+	tc := s.twinCall(r, mc)
+	tcOS := s.oscall(tc)
+
+	if !r.isView() {
+		tcOS = c
+	}
+
+	tdir := joinDir(r.base(), viewAbs(r.cwd, mc.A)) // where the parent sees the new view's root
+	if otherVolume(mc.A) {
+		tdir = mc.A
+	}
 
 	det := detail{
 		Variant: s.variant, Actor: r.name, Phase: phase, User: r.user, UMask: fmt.Sprintf("%03o", r.umask), Cwd: r.cwd,
-		Call: x.name + " = " + r.name + "." + c.String(), TwinCall: tc.String(),
+		Call: x.name + " = " + r.name + "." + c.String(), TwinCall: tcOS.String(),
 	}
 
 	if r.isView() {
 		det.Dir = r.dir
 	}
+
+	newVol := "" // what the volume names mean in the view this step creates (Windows-typed systems)
 
 	report := func(kind, want, got, note string, extra ...string) {
 		d := det
@@ -1235,11 +1423,17 @@ func (s *sys) stepSub(i int) bfs.StepResult {
 
 		sig := map[string]string{
 			"actor": r.kind, "call": c.Op, "path": pclass, "phase": phase, "kind": kind,
-			"want": clip(want), "got": clip(got), "user": userClass, "viewroot": s.viewrootClass(r, c, before),
+			"want": clip(want), "got": clip(got), "user": userClass, "viewroot": s.viewrootClass(r, mc, before),
 		}
 
 		for i := 0; i+1 < len(extra); i += 2 {
 			sig[extra[i]] = extra[i+1]
+		}
+
+		s.sigOS(sig, r)
+
+		if newVol != "" && newVol != "own" && (sig["volumes"] == "own" || sig["volumes"] == "n/a") {
+			sig["volumes"] = newVol // the view just created
 		}
 
 		viols = append(viols, bfs.Viol{Sig: sig, Detail: d.String()})
@@ -1249,18 +1443,40 @@ func (s *sys) stepSub(i int) bfs.StepResult {
 
 	s.mirror(r)
 
-	tr, _ := execSub(s.T, tc.A)
+	tr, _ := execSub(s.T, tcOS.A)
 
 	det.Real, det.Twin = rr.String(), tr.String()
 
 	if s.trace != nil {
-		s.trace(fmt.Sprintf("%-44s real=%s | twin %s = %s", s.OpString(i), rr, tc.String(), tr))
+		s.trace(fmt.Sprintf("%-44s real=%s | twin %s = %s", s.OpString(i), rr, tcOS.String(), tr))
 	}
 
-	nr, nt := s.normReal(r, c, rr), s.normTwin(r, c, tr)
+	tcwd := "/"
+	if !r.isView() {
+		tcwd = r.cwd
+	}
+
+	nr, nt := s.normReal(r, mc, s.mres(r.cwd, c, rr)), s.normTwin(r, mc, s.mres(tcwd, c, tr))
 	diverged := false
 
 	switch {
+	case foreign:
+		// the directory is on another volume, which has no counterpart below the
+		// receiver's dir: Sub fails as the parent's Sub on a volume that does not exist
+		if okClass(nr.Kind) != okClass(nt.Kind) || (rr.poisoned() && nr.Kind != nt.Kind) {
+			kind, want, got := "outcome", okClass(nt.Kind), nr.Kind
+
+			switch nr.Kind {
+			case "PANIC":
+				kind, want, got = "panic", "no-panic", panicClass(rr.Msg)
+			case "DEADLOCK":
+				kind, want = "deadlock", "no-deadlock"
+			}
+
+			report(kind, want, got, "Sub of a directory of another volume through a view")
+
+			diverged = true
+		}
 	case nr.Kind != nt.Kind:
 		kind, want, got := "outcome", nt.Kind, nr.Kind
 
@@ -1281,7 +1497,7 @@ func (s *sys) stepSub(i int) bfs.StepResult {
 
 	var after, tafter []string
 
-	dk, dmsg := fsx.Guard(func() { after = s.P.VerifDump(); tafter = s.T.VerifDump() })
+	dk, dmsg := fsx.Guard(func() { after = s.dump(s.P); tafter = s.dump(s.T) })
 	if dk != "" {
 		report("panic", "dump", "dump-"+dk, dmsg)
 
@@ -1300,8 +1516,17 @@ func (s *sys) stepSub(i int) bfs.StepResult {
 		// the actor is the new view from now on
 		x.fs, x.dir = nv, tdir
 		x.user, x.umask, x.cwd, x.chdirDone = r.user, r.umask, r.cwd, false
+		x.vol = s.volumeClass(x)
+		newVol = x.vol
 
 		s.locate(x)
+
+		if x.vol != "own" && s.win {
+			report("volume-table", winVolume+"=own-root,"+vol2+"=unreachable", x.vol,
+				"inside the view just created the default volume is not the view's own root, or another volume resolves (probe: Sub of the volume roots through the new view, injected VerifRootIs)")
+
+			diverged = true
+		}
 
 		if !x.attached() {
 			got := "a directory the parent cannot reach"
@@ -1321,7 +1546,7 @@ func (s *sys) stepSub(i int) bfs.StepResult {
 				report("setter-leak", m.want, m.got, "Sub changed the state of another actor", "victim", m.actor.kind)
 			}
 
-			m.actor.user, m.actor.umask, m.actor.cwd = actual(m.actor)
+			m.actor.user, m.actor.umask, m.actor.cwd = s.actual(m.actor)
 			diverged = true
 		}
 
@@ -1406,7 +1631,7 @@ func (s *sys) probeIndependence(a *actor, role string, leak func(setter string, 
 		if oldCwd == "/" {
 			target = ""
 
-			es, _ := a.fs.ReadDir("/")
+			es, _ := a.fs.ReadDir(s.osp("/"))
 			for _, e := range es {
 				if e.IsDir() {
 					target = "/" + e.Name()
@@ -1416,12 +1641,12 @@ func (s *sys) probeIndependence(a *actor, role string, leak func(setter string, 
 			}
 		}
 
-		if target != "" && a.fs.Chdir(target) == nil {
+		if target != "" && a.fs.Chdir(s.osp(target)) == nil {
 			a.cwd = target
 			check("Chdir")
 		}
 
-		_ = a.fs.SetCurDir(oldCwd)
+		_ = a.fs.SetCurDir(s.osp(oldCwd))
 		a.cwd = oldCwd
 	})
 }
